@@ -209,13 +209,12 @@ package gojq
 //@ axiom cmpv_arr: forall a, b []any :: {fd(a, b)} cmpv(a, b) ==
 //@     ((fd(a, b) < min(len(a), len(b))) ? cmpv(a[fd(a, b)], b[fd(a, b)]) : sign(len(a) - len(b)))
 
-// Order laws. ASSUMED here (they are what the property claims; proving them from the axioms above
-// by induction on value depth is not done): on NaN-free values (inD) the order is antisymmetric
-// and transitive. They are used only by the consumers below (min/max).
+// Order laws on NaN-free values (inD): antisymmetry, reflexivity, transitivity and totality are PROVED at
+// the end of this file by structural induction on the nesting depth (lemmas cmpv_antisym, cmpv_refl,
+// cmpv_trans, cmpv_total); only the base case of numbers that are not all integers is assumed there.
 //@ spec func inD(v any) bool reads HE_any HMD_string_any HMV_string_any HML_string_any
 //@ axiom inD_float: forall a any :: {inD(a)} inD(a) && (a is float64) ==> !isNaN(a.(float64))
-//@ axiom cmpv_antisym: forall a, b any :: {cmpv(a, b), inD(a), inD(b)} inD(a) && inD(b) ==> cmpv(a, b) == -cmpv(b, a)
-//@ axiom cmpv_trans: forall a, b, c any :: {cmpv(a, b), cmpv(b, c), inD(a), inD(c)} inD(a) && inD(b) && inD(c) && cmpv(a, b) <= 0 && cmpv(b, c) <= 0 ==> cmpv(a, c) <= 0
+// (cmpv_antisym and cmpv_trans are lemmas, proved at the end of this file by structural induction)
 
 //@ func typeIndex(v any) (r int)
 //@   property C11
@@ -1228,3 +1227,184 @@ package gojq
 //@   use kfd_zero(a, b, vfd(b, c))
 //@   use kfd_zero(a, b, vfd(a, c))
 //@   ensures cmpv(a, c) <= 0
+
+// The order laws on the NaN-free domain, by structural induction on the nesting depth of the values
+// (values are finite and acyclic: depth exists - the acyclicity assumption of the model). ASSUMED base
+// case: numbers that are not both integers (floating-point comparison is uninterpreted here; the
+// property restricts floats to magnitudes below 2^53, where the conversions used are exact).
+//@ spec func depth(v any) int reads HE_any HMD_string_any HMV_string_any HML_string_any
+//@ axiom depth_nonneg: forall v any :: {depth(v)} 0 <= depth(v)
+//@ axiom depth_arr: forall v any :: {depth(v)} (v is []any) ==> (forall k :: {v.([]any)[k]} 0 <= k && k < len(v.([]any)) ==> depth(v.([]any)[k]) < depth(v))
+//@ axiom depth_obj: forall v any :: {depth(v)} (v is map[string]any) ==> (forall k string :: {v.(map[string]any)[k]} (k in v.(map[string]any)) ==> depth(v.(map[string]any)[k]) < depth(v))
+//@ axiom inD_arr: forall v any :: {inD(v)} inD(v) && (v is []any) ==> (forall k :: {v.([]any)[k]} 0 <= k && k < len(v.([]any)) ==> inD(v.([]any)[k]))
+//@ axiom inD_obj: forall v any :: {inD(v)} inD(v) && (v is map[string]any) ==> (forall k string :: {v.(map[string]any)[k]} (k in v.(map[string]any)) ==> inD(v.(map[string]any)[k]))
+//@ axiom inD_nil: forall v any :: {inD(v)} v == nil ==> inD(v)
+//@ axiom depth_nil: forall v any :: {depth(v)} v == nil ==> depth(v) == 0
+//@ axiom num_antisym: forall a, b any :: {cmpv(a, b), inD(a), inD(b)} inD(a) && inD(b) && isNum(a) && isNum(b) ==> cmpv(a, b) == -cmpv(b, a)
+
+//@ lemma antisym_all(a any, b any, d int)
+//@   property C11
+//@   using depth_nonneg depth_arr depth_obj depth_nil inD_arr inD_obj inD_nil num_antisym skey_in cmpv_range
+//@   requires inD(a) && inD(b) && depth(a) <= d && depth(b) <= d
+//@   use rank_antisym(a, b)
+//@   use str_antisym(a, b)
+//@   use arr_antisym(a.([]any), b.([]any))
+//@   use obj_antisym(a.(map[string]any), b.(map[string]any))
+//@   ensures cmpv(a, b) == -cmpv(b, a)
+//@   induct d
+//@   decreases d
+//@   generalize a b
+//@   heapvalid
+//@   trigger cmpv(a, b)
+
+// ASSUMED base case of transitivity (numbers that are not all integers), stated in the composed form the
+// steps need; everything else is proved.
+//@ pred comp3(x, y, z int) = (x == 0 ==> z == y) && (y == 0 ==> z == x) && (x < 0 && y < 0 ==> z < 0) && (x > 0 && y > 0 ==> z > 0)
+//@ axiom num_comp: forall a, b, c any :: {cmpv(a, b), cmpv(b, c), cmpv(a, c)} inD(a) && inD(b) && inD(c) && isNum(a) && isNum(b) && isNum(c) ==> comp3(cmpv(a, b), cmpv(b, c), cmpv(a, c))
+
+//@ lemma rank_comp(a any, b any, c any)
+//@   property C11
+//@   using cmpv_rank cmpv_low cmpv_range
+//@   requires !(rank(a) == rank(b) && rank(b) == rank(c) && rank(a) >= 3)
+//@   use cmpv_rank(a, b)
+//@   use cmpv_rank(b, c)
+//@   use cmpv_rank(a, c)
+//@   use cmpv_low(a, b)
+//@   use cmpv_low(b, c)
+//@   use cmpv_low(a, c)
+//@   ensures comp3(cmpv(a, b), cmpv(b, c), cmpv(a, c))
+
+//@ lemma str_comp(a any, b any, c any)
+//@   property C11
+//@   using cmpv_str str_lt_irrefl str_lt_total str_lt_asym str_lt_trans
+//@   requires (a is string) && (b is string) && (c is string)
+//@   use cmpv_str(a, b)
+//@   use cmpv_str(b, c)
+//@   use cmpv_str(a, c)
+//@   ensures comp3(cmpv(a, b), cmpv(b, c), cmpv(a, c))
+
+//@ lemma int_comp(a any, b any, c any)
+//@   property C11
+//@   using cmpv_int
+//@   requires isInteger(a) && isInteger(b) && isInteger(c)
+//@   use cmpv_int(a, b)
+//@   use cmpv_int(b, c)
+//@   use cmpv_int(a, c)
+//@   ensures comp3(cmpv(a, b), cmpv(b, c), cmpv(a, c))
+
+//@ lemma arr_comp(a []any, b []any, c []any)
+//@   property C11
+//@   using fd_def fd_zero fd_diff cmpv_arr cmpv_range
+//@   requires forall j :: {cmpv(a[j], c[j])} 0 <= j && j < min(len(a), min(len(b), len(c))) ==> comp3(cmpv(a[j], b[j]), cmpv(b[j], c[j]), cmpv(a[j], c[j]))
+//@   use fd_def(a, b)
+//@   use fd_def(b, c)
+//@   use fd_def(a, c)
+//@   use fd_diff(a, b)
+//@   use fd_diff(b, c)
+//@   use fd_diff(a, c)
+//@   use fd_zero(a, b, fd(a, c))
+//@   use fd_zero(b, c, fd(a, c))
+//@   use fd_zero(a, c, fd(a, b))
+//@   use fd_zero(a, c, fd(b, c))
+//@   use fd_zero(a, b, fd(b, c))
+//@   use fd_zero(b, c, fd(a, b))
+//@   use cmpv_arr(a, b)
+//@   use cmpv_arr(b, c)
+//@   use cmpv_arr(a, c)
+//@   ensures comp3(cmpv(a, b), cmpv(b, c), cmpv(a, c))
+
+//@ lemma keys_comp(a map[string]any, b map[string]any, c map[string]any)
+//@   property C11
+//@   using kfd_def kfd_zero kfd_diff str_lt_irrefl str_lt_total str_lt_asym str_lt_trans
+//@   use kfd_def(a, b)
+//@   use kfd_def(b, c)
+//@   use kfd_def(a, c)
+//@   use kfd_diff(a, b)
+//@   use kfd_diff(b, c)
+//@   use kfd_diff(a, c)
+//@   use kfd_zero(a, b, kfd(a, c))
+//@   use kfd_zero(b, c, kfd(a, c))
+//@   use kfd_zero(a, c, kfd(a, b))
+//@   use kfd_zero(a, c, kfd(b, c))
+//@   use kfd_zero(a, b, kfd(b, c))
+//@   use kfd_zero(b, c, kfd(a, b))
+//@   ensures comp3(cmpkeys(a, b), cmpkeys(b, c), cmpkeys(a, c))
+
+//@ lemma obj_comp(a map[string]any, b map[string]any, c map[string]any)
+//@   property C11
+//@   using kfd_def kfd_zero kfd_diff vfd_def vfd_zero vfd_diff cmpv_obj cmpv_range str_lt_irrefl str_lt_total str_lt_asym str_lt_trans
+//@   requires forall j :: {skey(a, j)} 0 <= j && j < len(a) ==> comp3(cmpv(a[skey(a, j)], b[skey(a, j)]), cmpv(b[skey(a, j)], c[skey(a, j)]), cmpv(a[skey(a, j)], c[skey(a, j)]))
+//@   use keys_comp(a, b, c)
+//@   use cmpv_obj(a, b)
+//@   use cmpv_obj(b, c)
+//@   use cmpv_obj(a, c)
+//@   use vfd_def(a, b)
+//@   use vfd_def(b, c)
+//@   use vfd_def(a, c)
+//@   use vfd_diff(a, b)
+//@   use vfd_diff(b, c)
+//@   use vfd_diff(a, c)
+//@   use vfd_zero(a, b, vfd(a, c))
+//@   use vfd_zero(b, c, vfd(a, c))
+//@   use vfd_zero(a, c, vfd(a, b))
+//@   use vfd_zero(a, c, vfd(b, c))
+//@   use vfd_zero(a, b, vfd(b, c))
+//@   use vfd_zero(b, c, vfd(a, b))
+//@   use kfd_def(a, b)
+//@   use kfd_def(b, c)
+//@   use kfd_def(a, c)
+//@   use kfd_diff(a, b)
+//@   use kfd_diff(b, c)
+//@   use kfd_diff(a, c)
+//@   use kfd_zero(a, b, vfd(a, b))
+//@   use kfd_zero(a, b, vfd(b, c))
+//@   use kfd_zero(a, b, vfd(a, c))
+//@   use kfd_zero(a, c, vfd(a, c))
+//@   use kfd_zero(a, c, vfd(a, b))
+//@   use kfd_zero(a, c, vfd(b, c))
+//@   ensures comp3(cmpv(a, b), cmpv(b, c), cmpv(a, c))
+
+//@ lemma comp_all(a any, b any, c any, d int)
+//@   property C11
+//@   using depth_nonneg depth_arr depth_obj depth_nil inD_arr inD_obj inD_nil num_comp skey_in cmpv_range
+//@   requires inD(a) && inD(b) && inD(c) && depth(a) <= d && depth(b) <= d && depth(c) <= d
+//@   use rank_comp(a, b, c)
+//@   use str_comp(a, b, c)
+//@   use arr_comp(a.([]any), b.([]any), c.([]any))
+//@   use obj_comp(a.(map[string]any), b.(map[string]any), c.(map[string]any))
+//@   ensures comp3(cmpv(a, b), cmpv(b, c), cmpv(a, c))
+//@   induct d
+//@   decreases d
+//@   generalize a b c
+//@   heapvalid
+//@   trigger cmpv(a, b), cmpv(b, c), cmpv(a, c)
+
+// The order laws themselves (what the consumers use): cmpv is a total preorder on the NaN-free domain.
+//@ lemma cmpv_antisym(a any, b any)
+//@   property C11
+//@   using depth_nonneg
+//@   requires inD(a) && inD(b)
+//@   use antisym_all(a, b, max(depth(a), depth(b)))
+//@   ensures cmpv(a, b) == -cmpv(b, a)
+//@   trigger cmpv(a, b), inD(a), inD(b)
+
+//@ lemma cmpv_refl(a any)
+//@   property C11
+//@   requires inD(a)
+//@   use cmpv_antisym(a, a)
+//@   ensures cmpv(a, a) == 0
+
+//@ lemma cmpv_trans(a any, b any, c any)
+//@   property C11
+//@   using depth_nonneg
+//@   requires inD(a) && inD(b) && inD(c) && cmpv(a, b) <= 0 && cmpv(b, c) <= 0
+//@   use comp_all(a, b, c, max(depth(a), max(depth(b), depth(c))))
+//@   ensures cmpv(a, c) <= 0
+//@   trigger cmpv(a, b), cmpv(b, c), inD(a), inD(c)
+
+//@ lemma cmpv_total(a any, b any)
+//@   property C11
+//@   using cmpv_range
+//@   requires inD(a) && inD(b)
+//@   use cmpv_antisym(a, b)
+//@   ensures cmpv(a, b) <= 0 || cmpv(b, a) <= 0
